@@ -123,6 +123,7 @@ type sidRec struct {
 }
 
 type world struct {
+	ownerClientID *uint64 // clientid field of the lock-owner in the next LOCK/LOCKT, if not the session's
 	rt  *rapid.T
 	p   *profile
 	ctx context.Context
